@@ -320,6 +320,24 @@ func genTsRun(g *fact.Gen) {
 		}
 		return false, false, "cmdSkip waits for background commands in an unrecognised way (or not at all)"
 	})
+	execCmd := g.Method(cmd, "TestScript", "cmdExec")
+	shape("execRejectsLoneBgSpec", "cmdExec's usage check rejects a lone background specifier of either form (`&` or `&name&`: `len(args) == 1 && backgroundSpecifier.MatchString(args[0])`); with only `args[0] == \"&\"` there, `exec &name&` reaches `args[1:len(args)-1]` with one argument and panics.", true, func() (bool, bool, string) {
+		if execCmd == nil {
+			return false, false, "func cmdExec not found"
+		}
+		s := body(execCmd)
+		j := strings.Index(s, "args[1:len(args)-1]")
+		if j < 0 {
+			return false, false, "the background branch's args[1:len(args)-1] not found"
+		}
+		if i := strings.Index(s, "len(args)==1&&backgroundSpecifier.MatchString(args[0])"); i >= 0 && i < j {
+			return true, true, ""
+		}
+		if i := strings.Index(s, `len(args)==1&&args[0]=="&"`); i >= 0 && i < j {
+			return false, true, ""
+		}
+		return false, false, "cmdExec's usage check has an unrecognised shape"
+	})
 	stop := g.Method(cmd, "TestScript", "cmdStop")
 	shape("stopSetsStopped", "cmdStop sets `ts.stopped = true` as its last statement.", true, func() (bool, bool, string) {
 		if stop == nil || len(stop.Body.List) == 0 {
